@@ -291,6 +291,8 @@ impl KeyKeeperSharedState {
     }
 
     async fn set_key(&self, key: Option<Key>) -> Result<()> {
+        #[cfg(azure_guestproxyagent_verif)]
+        super::verif_sched::point("kk.set_key").await;
         let (response, receiver) = oneshot::channel();
         self.0
             .send(KeyKeeperAction::SetKey { key, response })
@@ -302,6 +304,8 @@ impl KeyKeeperSharedState {
     }
 
     async fn get_key(&self) -> Result<Option<Key>> {
+        #[cfg(azure_guestproxyagent_verif)]
+        super::verif_sched::point("kk.get_key").await;
         let (response, receiver) = oneshot::channel();
         self.0
             .send(KeyKeeperAction::GetKey { response })
